@@ -154,6 +154,26 @@ def run(chk):
                key='C10-L|%s|view' % fq)
 
     # ---- O order agreement between list and by-name index on positional replacement
+    chk.rule('C10-P', 'the parent / traversal_parent of an element are assigned only where it is attached or promoted (constructor, '
+                      '_can_add_child, set_parent_to_traversal, the two setters): any other code that re-points or clears them makes '
+                      'an element that is still listed elsewhere disown its parent')
+    PARENT_ASSIGNERS = {
+        'core.Element.__init__': 'the element attaches itself to the parent it was constructed with',
+        'core.Element._set_parent': 'setter: clears the traversal link when a real parent is stored',
+        'core.Element.set_parent_to_traversal': 'promotion of a lazily created element',
+        'core.ElementList._can_add_child': 'admission: the child adopts the element it is being added to',
+    }
+    npa = 0
+    for fq_, sites_ in sorted(cg.sites.items()):
+        for s_ in sites_:
+            if s_.kind == 'setprop' and s_.args.get('name') in ('parent', 'traversal_parent'):
+                npa += 1
+                ok_ = fq_ in PARENT_ASSIGNERS
+                chk.ob('C10-P', '%s assigns .%s' % (fq_, s_.args.get('name')), ok_,
+                       '' if ok_ else '`%s = ...` outside the attach / promote code: the back-pointer of an element can now disagree '
+                       'with the element that lists it' % s_.label[:40], '%s:%d' % (ix.functions[fq_].module.relpath, s_.lineno),
+                       key='C10-P|%s|%s' % (fq_, s_.args.get('name')))
+    chk.floor('assignments of parent / traversal_parent', npa, 6)
     chk.rule('C10-X', 'parent and traversal_parent are mutually exclusive: storing a real parent clears traversal_parent')
     tf.exclusive_parents(chk, c, 'C10-X')
     chk.rule('C10-O', 'a positional replacement inserts the new child at the old child\'s position in the list AND at the old '
